@@ -123,17 +123,50 @@ func streamCli(o *Out, r *Rng, tier string) {
 		mode := r.Pick([]string{"sn", "sn", "mn", "mn", "mq", "sq"})
 		multiline := mode[0] == 'm'
 		quiet := mode[1] == 'q'
-		var args []string
+		var flags []string
 		if multiline && quiet {
-			args = append(args, r.Pick([]string{"-mq", "-qm"}))
+			switch r.Intn(3) {
+			case 0:
+				flags = []string{r.Pick([]string{"-mq", "-qm"})}
+			case 1:
+				flags = []string{r.Pick([]string{"-m", "--multiline"}), r.Pick([]string{"-q", "--quiet"})}
+			default:
+				flags = []string{r.Pick([]string{"-q", "--quiet"}), r.Pick([]string{"-m", "--multiline"})}
+			}
 		} else if multiline {
-			args = append(args, r.Pick([]string{"-m", "--multiline"}))
+			flags = []string{r.Pick([]string{"-m", "--multiline"})}
 		} else if quiet {
-			args = append(args, r.Pick([]string{"-q", "--quiet"}))
+			flags = []string{r.Pick([]string{"-q", "--quiet"})}
 		}
-		args = append(args, expr)
+		// the input comes on stdin or from a file named after the expression; the flags may stand anywhere
+		positional := []string{expr}
+		fromFile := r.Chance(35)
+		if fromFile {
+			f, ferr := os.CreateTemp("", "ajson-cli-input")
+			if ferr != nil {
+				fatal("%v", ferr)
+			}
+			f.Write(input)
+			f.Close()
+			defer os.Remove(f.Name())
+			positional = append(positional, f.Name())
+			o.Stat("cli.input-from-file")
+		}
+		var args []string
+		switch r.Intn(3) {
+		case 0:
+			args = append(append(args, flags...), positional...)
+		case 1:
+			args = append(append(args, positional...), flags...)
+		default:
+			args = append(args, positional[0])
+			args = append(args, flags...)
+			args = append(args, positional[1:]...)
+		}
 		cmd := exec.Command(bin, args...)
-		cmd.Stdin = bytes.NewReader(input)
+		if !fromFile {
+			cmd.Stdin = bytes.NewReader(input)
+		}
 		var stdout, stderr bytes.Buffer
 		cmd.Stdout, cmd.Stderr = &stdout, &stderr
 		err := cmd.Run()
